@@ -539,3 +539,125 @@ func vcHTTP(hc *http.Client, method, url string, body any, hdr map[string]string
 	out, err := io.ReadAll(res.Body)
 	return res.StatusCode, out, err
 }
+
+// ---------------------------------------------------------------- attached fake clients (path manager level)
+
+// vcAttachedPub is a fake publisher attached through pathManager.AddPublisher.
+type vcAttachedPub struct {
+	*vcPub
+	SS   *stream.SubStream
+	Desc *description.Session
+	Path defs.Path
+	seq  int
+}
+
+// vcAttachPub attaches a new fake publisher (LPCM 16 bit / 48 kHz / 2 ch) to path name.
+func vcAttachPub(pm *pathManager, name string, tag string) (*vcAttachedPub, error) {
+	p := &vcAttachedPub{vcPub: vcNewPub(tag), Desc: vcDescLPCM()}
+	res, err := pm.AddPublisher(defs.PathAddPublisherReq{
+		Author:        p.vcPub,
+		Desc:          p.Desc,
+		ReplaceNTP:    true,
+		AccessRequest: defs.PathAccessRequest{Name: name, Publish: true, SkipAuth: true},
+	})
+	if err != nil {
+		return nil, err
+	}
+	p.SS = res.SubStream
+	p.Path = res.Path
+	return p, nil
+}
+
+// Write writes one unit tagged "VC|<pubID>|<seq>|<extra>" and returns the tag.
+func (p *vcAttachedPub) Write(extra string) string {
+	p.seq++
+	tag := fmt.Sprintf("VC|%s|%d|%s|", p.ID, p.seq, extra)
+	vcWriteLPCM(p.SS, p.Desc, int64(p.seq)*960, []byte(tag))
+	return tag
+}
+
+// Detach removes the publisher from its path (what a session does when it ends).
+func (p *vcAttachedPub) Detach() {
+	p.Path.RemovePublisher(defs.PathRemovePublisherReq{Author: p.vcPub})
+}
+
+// vcAttachedRdr is a fake reader attached through pathManager.AddReader plus a real stream.Reader
+// that records the tag of every unit it is handed.
+type vcAttachedRdr struct {
+	*vcRdr
+	Stream *stream.Stream
+	SR     *stream.Reader
+	Path   defs.Path
+
+	mu         sync.Mutex
+	got        []string
+	gotAtClose int // len(got) when the path called Close() on the reader (-1: never closed)
+}
+
+// vcAttachRdr attaches r (or a fresh reader when r is nil) to path name. A reader that is already attached
+// (same author) is re-submitted as is, without a second stream.Reader.
+func vcAttachRdr(pm *pathManager, name string, r *vcAttachedRdr) (*vcAttachedRdr, error) {
+	fresh := r == nil
+	if fresh {
+		r = &vcAttachedRdr{vcRdr: vcNewRdr("rdr"), gotAtClose: -1}
+		rr := r
+		r.vcRdr.OnClose = func() {
+			rr.mu.Lock()
+			rr.gotAtClose = len(rr.got)
+			rr.mu.Unlock()
+		}
+	}
+	res, err := pm.AddReader(defs.PathAddReaderReq{
+		Author:        r.vcRdr,
+		AccessRequest: defs.PathAccessRequest{Name: name, SkipAuth: true},
+	})
+	if err != nil {
+		return nil, err
+	}
+	if fresh {
+		r.Stream = res.Stream
+		r.Path = res.Path
+		r.SR = &stream.Reader{Parent: &vcLog{}}
+		medi := res.Stream.OrigDesc.Medias[0]
+		rr := r
+		r.SR.OnData(medi, medi.Formats[0], func(u *unit.Unit) error {
+			if pl, ok := u.Payload.(unit.PayloadLPCM); ok && bytes.HasPrefix(pl, []byte("VC|")) {
+				s := string(pl)
+				if i := strings.LastIndex(s, "|"); i >= 0 {
+					s = s[:i+1]
+				}
+				rr.mu.Lock()
+				rr.got = append(rr.got, s)
+				rr.mu.Unlock()
+			}
+			return nil
+		})
+		res.Stream.AddReader(r.SR)
+	}
+	return r, nil
+}
+
+// Got returns a copy of the tags received so far.
+func (r *vcAttachedRdr) Got() []string {
+	r.mu.Lock()
+	defer r.mu.Unlock()
+	return append([]string(nil), r.got...)
+}
+
+// GotAtClose returns how many tags had been received when the path closed the reader (-1 if it never did).
+func (r *vcAttachedRdr) GotAtClose() int {
+	r.mu.Lock()
+	defer r.mu.Unlock()
+	return r.gotAtClose
+}
+
+// Detach does what a reader session does when it ends: leaves the stream, then the path.
+func (r *vcAttachedRdr) Detach() {
+	r.Stream.RemoveReader(r.SR)
+	r.Path.RemoveReader(defs.PathRemoveReaderReq{Author: r.vcRdr})
+}
+
+// DetachStreamOnly leaves the stream only (used after the path has already closed the reader).
+func (r *vcAttachedRdr) DetachStreamOnly() {
+	r.Stream.RemoveReader(r.SR)
+}
